@@ -1,6 +1,7 @@
 import Proofs.ActionPick
 import Proofs.ActionBounds
 import Proofs.ActionGenEq
+import Proofs.MaPlumbGenEq
 
 /-!
 # C14 — every selected action is a legal member of the action space
@@ -608,4 +609,267 @@ example : CQN.get_action_draws_ok (self_action_dim := 3) (np_random_randint := 2
     (random_random := 0) := by
   simp [CQN.get_action_draws_ok]; norm_num
 
+end Action
+
+namespace Action
+section Plumbing
+
+/-! ### multi-agent plumbing: which mask / env-defined action reaches which agent and environment row -/
+
+theorem dlookup_filter_ids {V : Type} (ids : List String) (a : String) (ha : a ∈ ids) :
+    ∀ (l : List (String × V)), dlookup (l.filter (fun p => ids.contains p.1)) a = dlookup l a
+  | [] => rfl
+  | p :: l => by
+    have ih := dlookup_filter_ids ids a ha l
+    unfold dlookup at ih ⊢
+    by_cases hp : p.1 = a
+    · have hc : ids.contains p.1 = true := by simpa [hp] using ha
+      simp only [List.filter_cons, hc, if_true, List.find?_cons, show (p.1 == a) = true from by simpa using hp]
+    · by_cases hc : ids.contains p.1 = true
+      · simp only [List.filter_cons, hc, if_true, List.find?_cons]
+        simp only [show (p.1 == a) = false from by simpa using hp]
+        exact ih
+      · simp only [List.filter_cons, hc, List.find?_cons]
+        simp only [show (p.1 == a) = false from by simpa using hp]
+        simpa using ih
+
+/-- (i) the mask that reaches a known agent is the one stored under its OWN key, wherever that key stands in
+    `infos` (`none` when the agent has no entry or its entry has no mask) -/
+theorem C14_plumbing_own_mask {M : Type} (ids : List String) (infos : List (String × Option M)) (a : String)
+    (ha : a ∈ ids) : ownMask ids infos a = (dlookup infos a).join := by
+  unfold ownMask extractMasks
+  rw [dlookup_filter_ids ids a ha]
+
+/-- (i) permutation invariance: for every agent set, every `infos` with distinct keys and every reordering of it,
+    every agent is given the same mask -/
+theorem C14_plumbing_own_mask_perm {M : Type} (ids : List String) (infos infos' : List (String × Option M))
+    (hn : (infos.map Prod.fst).Nodup) (hp : infos.Perm infos') (a : String) :
+    ownMask ids infos a = ownMask ids infos' a := by
+  unfold ownMask extractMasks
+  rw [MaPlumbGenEq.dlookup_perm _ _ a (List.Nodup.sublist (List.Sublist.map _ List.filter_sublist) hn) (hp.filter _)]
+
+/-- (ii) entry `j` of the final action row: the env-defined action iff it is defined (not NaN: exactly where
+    `agent_mask` holds), else the policy's action -/
+theorem C14_plumbing_override_entry {α : Type} (xs : List α) (es : List (Option α)) (j : Nat) :
+    (overrideRow xs es)[j]? = (xs[j]?).bind (fun x => (es[j]?).map (fun e => e.getD x)) := by
+  unfold overrideRow
+  rw [List.getElem?_zipWith]
+  cases xs[j]? <;> cases es[j]? <;> rfl
+
+theorem C14_plumbing_override_rows_entry {α : Type} (pol : List (List α)) (env : List (List (Option α))) (e : Nat) :
+    (overrideRows pol env)[e]? = (pol[e]?).bind (fun xr => (env[e]?).map (fun er => overrideRow xr er)) := by
+  unfold overrideRows
+  rw [List.getElem?_zipWith]
+  cases pol[e]? <;> cases env[e]? <;> rfl
+
+/-- (ii) legality is preserved: if every policy action is legal (the per-row theorems above) and every env-defined
+    action is legal, every returned action is legal — for any notion of legal, any number of rows and dimensions -/
+theorem C14_plumbing_override_legal {α : Type} (P : α → Prop) (pol : List (List α)) (env : List (List (Option α)))
+    (hp : ∀ r ∈ pol, ∀ x ∈ r, P x) (he : ∀ r ∈ env, ∀ v, some v ∈ r → P v) :
+    ∀ r ∈ overrideRows pol env, ∀ x ∈ r, P x := by
+  intro r hr x hx
+  unfold overrideRows at hr
+  rw [List.mem_iff_getElem?] at hr
+  obtain ⟨i, hi⟩ := hr
+  rw [List.getElem?_zipWith] at hi
+  cases hxr : pol[i]? with
+  | none => simp [hxr] at hi
+  | some xr =>
+    cases her : env[i]? with
+    | none => simp [hxr, her] at hi
+    | some er =>
+      simp only [hxr, her] at hi
+      have hi' : List.zipWith (fun x e => e.getD x) xr er = r := by simpa using hi
+      rw [← hi', List.mem_iff_getElem?] at hx
+      obtain ⟨j, hj⟩ := hx
+      rw [List.getElem?_zipWith] at hj
+      cases hxj : xr[j]? with
+      | none => simp [hxj] at hj
+      | some x0 =>
+        cases hej : er[j]? with
+        | none => simp [hxj, hej] at hj
+        | some e0 =>
+          simp only [hxj, hej] at hj
+          have hx' : e0.getD x0 = x := by simpa using hj
+          have hxr' := List.mem_of_getElem? hxr
+          have her' := List.mem_of_getElem? her
+          cases e0 with
+          | none => rw [← hx']; exact hp xr hxr' x0 (List.mem_of_getElem? hxj)
+          | some v => rw [← hx']; exact he er her' v (List.mem_of_getElem? hej)
+
+open MaPlumbGen MaPlumbGenEq
+
+/-- SOURCE: `MultiAgentRLAlgorithm.extract_action_masks` as written gives every known agent the mask stored under its
+    own key, for every order of `infos` -/
+theorem C14_source_translation_plumbing_own_mask {α : Type} (ids : List String) (infos : PyDict (Info α))
+    (hn : (infos.map Prod.fst).Nodup) (a : String) (ha : a ∈ ids) :
+    (Base.extract_action_masks ids infos).map (fun d => (pyGet d a).join) =
+      some ((dlookup infos a).bind (fun i => maskOf i)) := by
+  rw [gen_extract_action_masks_eq ids infos hn]
+  simp only [Option.map_some, gen_pyGet_eq]
+  have := C14_plumbing_own_mask ids (infos.map (fun p => (p.1, maskOf p.2))) a ha
+  unfold ownMask at this
+  rw [this]
+  congr 1
+  unfold dlookup
+  rw [List.find?_map]
+  cases h : List.find? ((fun p => p.1 == a) ∘ fun (p : String × Info α) => (p.1, maskOf p.2)) infos with
+  | none =>
+    have : List.find? (fun p => p.1 == a) infos = none := by simpa [Function.comp_def] using h
+    simp [this]
+  | some p =>
+    have : List.find? (fun p => p.1 == a) infos = some p := by simpa [Function.comp_def] using h
+    simp [this]
+
+theorem C14_source_translation_plumbing_own_mask_perm {α : Type} (ids : List String) (infos infos' : PyDict (Info α))
+    (hn : (infos.map Prod.fst).Nodup) (hp : infos.Perm infos') (a : String) (ha : a ∈ ids) :
+    (Base.extract_action_masks ids infos).map (fun d => (pyGet d a).join) =
+      (Base.extract_action_masks ids infos').map (fun d => (pyGet d a).join) := by
+  rw [C14_source_translation_plumbing_own_mask ids infos hn a ha,
+    C14_source_translation_plumbing_own_mask ids infos' ((hp.map Prod.fst).nodup_iff.mp hn) a ha,
+    dlookup_perm infos infos' a hn hp]
+
+/-- SOURCE: the agent mask computed from a (normalised, 2-D) entry and the statement
+    `action[agent_mask] = env_defined_actions[agent_mask]` give the entry-wise override, for every number of
+    environment rows and action dimensions; another shape is an exception, never a misplaced action -/
+theorem C14_source_translation_plumbing_mask_copy {α : Type} (xs : List (List α)) (es : List (List (Option α))) :
+    (genAgentMask (Arr.a2 es)).bind (fun m => arrMaskCopy (Arr.a2 xs) m (Arr.a2 es)) =
+      if xs.map List.length = es.map List.length then some (Arr.a2 (overrideRows xs es)) else none := by
+  rw [genAgentMask_a2]
+  simp only [Option.bind]
+  split
+  · next h => exact gen_arrMaskCopy_a2 xs es h
+  · next h => exact gen_arrMaskCopy_a2_mismatch xs es h
+
+theorem C14_source_translation_plumbing_mask_copy_1d {α : Type} (xs : List α) (es : List (Option α))
+    (h : xs.length = es.length) :
+    (genAgentMask (Arr.a1 es)).bind (fun m => arrMaskCopy (Arr.a1 xs) m (Arr.a1 es)) = some (Arr.a1 (overrideRow xs es)) := by
+  rw [genAgentMask_a1]
+  exact gen_arrMaskCopy_a1 xs es h
+
+/-- SOURCE (iii): `np.reshape(out, (n, E, -1))[i]` of `disassemble_homogeneous_outputs` is agent `i`'s own block of
+    `E` rows of the group's agent-major batch -/
+theorem C14_source_translation_plumbing_disassemble {β : Type} (x : List β) (n e i : Nat) (h0 : n * e ≠ 0)
+    (hd : x.length % (n * e) = 0) :
+    (npReshape3 (HOut.flat x) n e).bind (fun r => hoIdx r i) = ((disassembleGroup n e x)[i]?).map Arr.a2 := by
+  rw [gen_npReshape3_eq x n e h0 hd]
+  rfl
+
+/-- masked arg-max stub for the concrete runs: first allowed index per row (`m` holds the MASKED entries) -/
+def amaxStub (a : Arr Nat) (m : Arr Bool) : Option (Arr Nat) :=
+  match a, m with
+  | Arr.a2 rs, Arr.none => some (Arr.a1 (rs.map (fun _ => 0)))
+  | Arr.a2 rs, Arr.a2 ms => some (Arr.a1 ((rs.zip ms).map (fun p => p.2.idxOf false)))
+  | _, _ => none
+
+def polStub : PyDict (Arr Nat) :=
+  [("a", Arr.a2 [[5, 1], [5, 1]]), ("b", Arr.a2 [[5, 1], [5, 1]]), ("c", Arr.a2 [[5, 1], [5, 1]])]
+
+/-- the same `infos` listed in the order b, c, a -/
+def infosBCA : PyDict (Info Nat) := [infosAB[1]!, infosAB[2]!, infosAB[0]!]
+
+/-- SOURCE: a whole run (MADDPG, discrete, two environment rows, `infos` in agent order and shuffled): agent `a`
+    follows its own mask in both rows, agent `b` plays the env-defined action in row 0 only -/
+theorem C14_source_translation_plumbing_run :
+    (MADDPG.get_action_plumbing amaxStub [2, 2, 2] ["a", "b", "c"] true (some infosAB) polStub).map (fun r => r.2) =
+      some (some [("a", Arr.a1 [0, 1]), ("b", Arr.a1 [1, 0]), ("c", Arr.a1 [0, 0])]) ∧
+    MADDPG.get_action_plumbing amaxStub [2, 2, 2] ["a", "b", "c"] true (some infosBCA) polStub =
+      MADDPG.get_action_plumbing amaxStub [2, 2, 2] ["a", "b", "c"] true (some infosAB) polStub ∧
+    MATD3.get_action_plumbing amaxStub [2, 2, 2] ["a", "b", "c"] true (some infosBCA) polStub =
+      MATD3.get_action_plumbing amaxStub [2, 2, 2] ["a", "b", "c"] true (some infosAB) polStub :=
+  ⟨by decide, by decide, by decide⟩
+
+/-- SOURCE (repaired code, commit 1022803): the presence test of `extract_agent_masks` — `key_in_nested_dict(infos,
+    "env_defined_actions")` — is true iff SOME entry of `infos` is that key or is a dict holding it, for every `infos` -/
+theorem C14_source_translation_plumbing_presence_iff {α : Type} (infos : PyDict (Info α)) (t : String) :
+    key_in_nested_dict_0 infos t = some true ↔
+      ∃ p ∈ infos, p.1 = t ∨ (p.2.isDict = true ∧ t ∈ p.2.keys) := by
+  rw [gen_key_in_nested_dict_0_eq, Option.some.injEq, keyInNested_iff]
+  unfold nestedView
+  constructor
+  · rintro ⟨q, hq, h⟩
+    obtain ⟨p, hp, rfl⟩ := List.mem_map.mp hq
+    refine ⟨p, hp, ?_⟩
+    rcases h with h | ⟨ks, hk, h⟩
+    · exact Or.inl h
+    · cases hd : p.2.isDict
+      · simp [hd] at hk
+      · simp only [hd, if_true, Option.some.injEq] at hk
+        exact Or.inr ⟨rfl, hk ▸ h⟩
+  · rintro ⟨p, hp, h⟩
+    refine ⟨_, List.mem_map_of_mem hp, ?_⟩
+    rcases h with h | ⟨hd, h⟩
+    · exact Or.inl h
+    · exact Or.inr ⟨p.2.keys, by simp [hd], h⟩
+
+/-- SOURCE (repaired code): the presence test is invariant under EVERY permutation of `infos` -/
+theorem C14_source_translation_plumbing_presence_perm {α : Type} (infos infos' : PyDict (Info α)) (t : String)
+    (hp : infos.Perm infos') : key_in_nested_dict_0 infos t = key_in_nested_dict_0 infos' t := by
+  rw [gen_key_in_nested_dict_0_eq, gen_key_in_nested_dict_0_eq,
+    keyInNested_perm _ _ t (show (nestedView infos).Perm (nestedView infos') from hp.map _)]
+
+/-- SOURCE (repaired code): `extract_agent_masks` gives up (`(None, None)`: no env-defined action is played) whenever no
+    info holds the key or every known agent's info is empty — and both conditions do not depend on the order of `infos` -/
+theorem C14_source_translation_plumbing_absent_perm {α : Type} (dims : List Nat) (ids : List String) (disc : Bool)
+    (infos infos' : PyDict (Info α)) (hp : infos.Perm infos')
+    (h : keyInNested (nestedView infos) "env_defined_actions" = false ∨
+      ((infos.filter (fun p => ids.contains p.1)).all (fun p => !p.2.truthy)) = true) :
+    Base.extract_agent_masks dims ids disc infos = some (none, none) ∧
+    Base.extract_agent_masks dims ids disc infos' = some (none, none) := by
+  refine ⟨gen_extract_agent_masks_absent dims ids disc infos h, gen_extract_agent_masks_absent dims ids disc infos' ?_⟩
+  rcases h with h | h
+  · exact Or.inl (by rw [← keyInNested_perm _ _ _ (show (nestedView infos).Perm (nestedView infos') from hp.map _)]; exact h)
+  · exact Or.inr (by rw [← (hp.filter _).all_eq]; exact h)
+
+/-- `"a"` sends only a mask, `"b"` an env-defined action (one env row) -/
+def infosMaskFirst : PyDict (Info Nat) :=
+  [("a", mkInfo (some (Arr.a2 [[true, false]])) Arr.none ["action_mask"]),
+   ("b", mkInfo none (Arr.a1 [some 1]) ["env_defined_actions"]),
+   ("c", mkInfo none (Arr.a1 [none]) ["env_defined_actions"])]
+
+/-- SOURCE (repaired code): the run on which the code AS FOUND dropped `b`'s env-defined action (`a`, which sends only a
+    mask, listed first) now plays it, in both orders -/
+theorem C14_source_translation_plumbing_env_defined_first_info_run :
+    (MADDPG.get_action_plumbing amaxStub [2, 2, 2] ["a", "b", "c"] true (some infosMaskFirst)
+        [("a", Arr.a2 [[5, 1]]), ("b", Arr.a2 [[5, 1]]), ("c", Arr.a2 [[5, 1]])]).map (fun r => r.2) =
+      some (some [("a", Arr.a1 [0]), ("b", Arr.a1 [1]), ("c", Arr.a1 [0])]) ∧
+    MADDPG.get_action_plumbing amaxStub [2, 2, 2] ["a", "b", "c"] true
+        (some [infosMaskFirst[1]!, infosMaskFirst[0]!, infosMaskFirst[2]!])
+        [("a", Arr.a2 [[5, 1]]), ("b", Arr.a2 [[5, 1]]), ("c", Arr.a2 [[5, 1]])] =
+      MADDPG.get_action_plumbing amaxStub [2, 2, 2] ["a", "b", "c"] true (some infosMaskFirst)
+        [("a", Arr.a2 [[5, 1]]), ("b", Arr.a2 [[5, 1]]), ("c", Arr.a2 [[5, 1]])] :=
+  ⟨by decide, by decide⟩
+
+/-- AS FOUND (finding C14-env-defined-actions-infos-order, repaired by commit 1022803; hand-written `keyInNestedAsFound`
+    of Model/Action.lean): the helper returned the answer of the first dict-valued info, so the presence test — and with
+    it whether ANY env-defined action was played — depended on the order of `infos`.  (Before the repair this witness was
+    decided on the generated code itself.) -/
+theorem C14_plumbing_env_defined_order_asfound_witness :
+    ¬ (∀ (l l' : List (String × Option (List String))) (t : String), l.Perm l' →
+        keyInNestedAsFound l t = keyInNestedAsFound l' t) := by
+  intro h
+  have := h [("a", some ["action_mask"]), ("b", some ["env_defined_actions"])]
+    [("b", some ["env_defined_actions"]), ("a", some ["action_mask"])] "env_defined_actions" (List.Perm.swap _ _ _)
+  revert this
+  decide
+
+/-- the repaired helper agrees with the as-found one whenever the first dict-valued info already holds the key (the
+    as-found answer `true` was always right; only its `false` could be wrong) -/
+theorem C14_plumbing_asfound_true_sound (l : List (String × Option (List String))) (t : String)
+    (h : keyInNestedAsFound l t = true) : keyInNested l t = true := by
+  induction l with
+  | nil => simp [keyInNestedAsFound] at h
+  | cons p l ih =>
+    obtain ⟨k, v⟩ := p
+    unfold keyInNestedAsFound at h
+    unfold keyInNested
+    simp only [List.any_cons, Bool.or_eq_true]
+    by_cases hk : (k == t) = true
+    · exact Or.inl (Or.inl hk)
+    · simp only [hk] at h
+      cases v with
+      | some ks => exact Or.inl (Or.inr (by simpa using h))
+      | none => exact Or.inr (by simpa [keyInNested] using ih (by simpa using h))
+
+end Plumbing
 end Action
